@@ -3,6 +3,9 @@
 # and restores /repo. usage: tools/sensitivity.sh [name-filter]
 #   mutants/<name>.patch + mutants/<name>.props (space separated property ids; default: from MUTANTS table)
 cd "$(dirname "$0")/.."
+# the evidence files belong to the unchanged tree: keep them
+EVBAK=$(mktemp -d /dev/shm/evbak.XXXXXX); cp -a evidence/. $EVBAK/ 2>/dev/null
+trap 'cp -a $EVBAK/. evidence/ 2>/dev/null; rm -rf $EVBAK' EXIT
 declare -A PROPS
 while read -r name props; do [ -n "$name" ] && PROPS[$name]="$props"; done < mutants/EXPECT
 fail=0
